@@ -133,7 +133,7 @@ def run(ctx):
         reads = [x for x in b.calls if x.path == "std::ops::Deref::deref" and "RwLockWriteGuard" in x.self_ty]
         stores = [x for x in b.calls if x.path == "std::ops::DerefMut::deref_mut" and "RwLockWriteGuard" in x.self_ty]
         cbs = [x for x in b.calls if x.path in ("std::ops::FnOnce::call_once", "std::ops::Fn::call", "std::ops::FnMut::call_mut")]
-        for what, lst in (("read", reads), ("callback", cbs), ("store", stores)):
+        for what, lst in (("read", reads or stores), ("callback", cbs), ("store", stores)):
             k = "%s:%s-in-region" % (key, what)
             if not lst:
                 res.bad(k, "%s has no %s of the cell content" % (bid, what), b.where())
@@ -141,8 +141,12 @@ def run(ctx):
                 res.ok(k, b.where(lst[0].line))
             else:
                 res.bad(k, "the %s in %s happens outside the write guard's live region" % (what, bid), b.where(lst[0].line))
-        if reads and cbs and stores:
-            order_ok = all(b.dominates(r.bb, cb.bb) for r in reads[:1] for cb in cbs) and all(b.dominates(cb.bb, s.bb) for cb in cbs for s in stores)
+        if cbs and stores:
+            # the old content is obtained before the kernel runs (a read, or a move-out through deref_mut) and the result
+            # is stored after it; in try_exec *every* store must wait for the success check (separate rule below)
+            before = [x for x in reads + stores if all(b.dominates(x.bb, cb.bb) and x.bb != cb.bb for cb in cbs)]
+            after = [x for x in stores if all(b.dominates(cb.bb, x.bb) for cb in cbs)]
+            order_ok = bool(before) and bool(after)
             if order_ok:
                 res.ok(key + ":order", b.where(), "read old content -> kernel -> store")
             else:
